@@ -41,9 +41,9 @@ def check(ctx):
     UNK = "Not(validation::registry_contains_type_path(P%d,substitutes::path_segments(%s.0.path)))" % (i_reg, D)
 
     def lst(field, getter):
-        F = "Iterator::find(ERR.%s,|1|{(C1_0.0==%s.0.path)})" % (field, D)
-        return ("if(Not(HashSet::is_empty(%s(%s.1)))){if(let v1::Some($)=%s){Extend::extend(%s@v1::Some.0.1,HashSet::iter(%s(%s.1)))}"
-                "else{Vec::push(ERR.%s,(%s.0.path,%s(%s.1)))}}else{'()'}") % (getter, D, F, F, getter, D, field, D, getter, D)
+        L = "ERR.%s" % field
+        return ("if(Not(HashSet::is_empty(%s(%s.1)))){search(%s,(elem(%s).0==%s.0.path),Extend::extend(elem(%s).1,HashSet::iter(%s(%s.1))),"
+                "Vec::push(%s,(%s.0.path,%s(%s.1))))}else{'()'}") % (getter, D, L, L, D, L, getter, D, L, D, getter, D)
     A = lst("attributes_for_unknown_types", "Derives::attributes")
     Dv = lst("derives_for_unknown_types", "Derives::derives")
     SUB = ("for(TypeSubstitutes::iter(P%d)){if(Not(validation::registry_contains_type_path(P%d,%s.0))){Vec::push(ERR.substitutes_for_unknown_types,"
